@@ -220,9 +220,9 @@ func EvalInit(pkg *ssa.Package) *InitVals {
 // OpEntry describes one entry of builtinOperators.
 type OpEntry struct {
 	Name   string
-	Func   string           // e.g. "arithmetic.execute" or "logicNot"
-	Fn     *ssa.Function    // underlying (unwrapped) function
-	Fields map[string]cval  // receiver fields for bound methods
+	Func   string          // e.g. "arithmetic.execute" or "logicNot"
+	Fn     *ssa.Function   // underlying (unwrapped) function
+	Fields map[string]cval // receiver fields for bound methods
 }
 
 // OperatorTable extracts builtinOperators.
